@@ -20,7 +20,7 @@ Proof.
   unfold prepare. destruct (Nat.eqb (length (d_pos (promoted c))) (g_dim g)) eqn:Ed; simpl negb; cbv iota; [|discriminate].
   apply Nat.eqb_eq in Ed.
   destruct (data_bounds _ _ _ _) as [l h]. destruct (fit_bounds _ l h) as [b0 b1].
-  destruct (levels vmin_o vmax_o st) as [[vmin vmax]|]; [|discriminate].
+  destruct (levels vmin_o vmax_o st) as [vmin vmax].
   destruct adjust; intros H; injection H as <-; simpl; repeat split; exact Ed.
 Qed.
 
@@ -207,25 +207,25 @@ Section Main.
     rewrite (degenerate_range_rejected g st vmin_o vmax_o true c p Hwf Ep eq_refl Hn). reflexivity.
   Qed.
 
-  (* what `prepare` needs: matching dimension and defined intensity levels *)
+  (* what `prepare` needs: matching dimension *)
   Lemma prepare_ok g st vmin_o vmax_o adjust c : length (d_pos c) = g_dim g ->
-    levels vmin_o vmax_o st <> None -> exists p, prepare g st vmin_o vmax_o adjust c = inr p.
+    exists p, prepare g st vmin_o vmax_o adjust c = inr p.
   Proof.
-    intros Hd Hl. unfold prepare. rewrite (proj1 (promoted_pos c)), Hd, Nat.eqb_refl. simpl negb. cbv iota.
+    intros Hd. unfold prepare. rewrite (proj1 (promoted_pos c)), Hd, Nat.eqb_refl. simpl negb. cbv iota.
     destruct (data_bounds _ _ _ _) as [l h]. destruct (fit_bounds _ l h) as [b0 b1].
-    destruct (levels vmin_o vmax_o st) as [[vmin vmax]|]; [|contradiction].
+    destruct (levels vmin_o vmax_o st) as [vmin vmax].
     destruct adjust; eexists; reflexivity.
   Qed.
 
   Theorem refine_ok g st vmin_o vmax_o adjust c : lsq_spec lsq -> wf c -> valid g c ->
     length (d_pos c) = g_dim g ->
-    (exists vmin vmax, levels vmin_o vmax_o st = Some (vmin, vmax) /\ (adjust = false \/ vmin < vmax)) ->
+    (adjust = false \/ level_min vmin_o st < level_max vmax_o st) ->
     exists r, refine lsq hyp dev g st vmin_o vmax_o adjust c = ROk r.
   Proof.
-    intros Hspec Hwf Hv Hd (vmin & vmax & El & Hlev).
-    destruct (prepare_ok g st vmin_o vmax_o adjust c Hd) as [p Ep]; [congruence|].
+    intros Hspec Hwf Hv Hd Hlev.
+    destruct (prepare_ok g st vmin_o vmax_o adjust c Hd) as [p Ep].
     destruct (prepare_shape g st vmin_o vmax_o adjust c p Hwf Ep) as (_ & El' & _ & Hdim & _ & Hflat & _).
-    rewrite El in El'. injection El' as E1 E2. rewrite E1, E2 in Hlev.
+    unfold levels in El'. injection El' as E1 E2. rewrite E1, E2 in Hlev.
     destruct (refine_start_feasible g st vmin_o vmax_o adjust c p Hwf Hv Ep Hlev) as (Hpre & _).
     destruct (fitted_ok lsq dev g st vmin_o vmax_o adjust c p Hwf Ep Hspec Hpre) as [d Ed].
     unfold refine. rewrite Ep, Ed. unfold finish.
@@ -412,7 +412,8 @@ Lemma ex_runs :
     {| d_cls := RP3DAxi; d_pos := [3 # 10; 4 # 10; 15 # 4]; d_rad := 5 # 4; d_width := Some (3 # 4);
        d_amp := [1 # 20; -(1 # 5)] |} = true /\
   refine lsq_identity (fun _ => 0) (fun _ _ _ => []) ex_cart (Some (1, 1)) None None true ex_sph = RErr EBoundsNotStrict /\
-  refine lsq_identity (fun _ => 0) (fun _ _ _ => []) ex_cart None None (Some 1) false ex_sph = RErr EEmptyRegion /\
+  res_is (refine lsq_identity (fun _ => 0) (fun _ _ _ => []) ex_cart None None None true ex_sph)
+    {| d_cls := RDiffuse; d_pos := [1; 1]; d_rad := 1; d_width := Some 1; d_amp := [] |} = true /\
   wf ex_sph /\ wf ex_axi /\ valid ex_cart ex_sph /\ valid ex_cyl ex_axi /\ wf_grid ex_cart /\ wf_grid ex_cyl.
 Proof.
   repeat split; try (vm_compute; reflexivity); try (intros; discriminate); try (vm_compute; intros; discriminate).
